@@ -143,3 +143,40 @@ def pairing_instances(ctx, em, rule):
             n4 += 1
             ctx.inst(rule, "pairing:%s:%s" % (short_fn(st.fn), st.label), bad is None, st.fn.where(),
                      "%d position stores; %s" % (stores, bad or "margin and checkpoint move together (same remain-margin result), or both untouched/reset"))
+
+
+def settled_on_stored_record_instances(ctx, em, rule):
+    """every remain-margin computation of a chain step is made on the STORED record: the margin, the funding checkpoint
+    and the size it reads are the loaded position's own fields - not those of a derived copy whose margin was already
+    netted / clamped or whose checkpoint was already advanced (funding would then be settled twice, or the part of it
+    that exceeds the margin would vanish before the bad-debt test)"""
+    ix = ctx.ix
+    n = 0
+    for (st, root, depth, ckey) in sorted(em.steps.values(), key=lambda x: (x[3], x[2])):
+        bad = None
+        calls = 0
+        for q in st.ok_paths():
+            for e in em.remain_margin_calls(q):
+                pa = [a_ for a_, i_ in zip(e.args, range(e.target.arg_count)) if "Position" in e.target.locals[i_ + 1]["ty"]]
+                if not pa:
+                    continue
+                calls += 1
+                P = pa[0]
+                for fld in ("margin", "last_updated_premium_fraction", "size"):
+                    fi = ix.inline(st.c(sym.field(P, fld)))
+                    ok = tag(fi) == "field" and payload(fi)[0] == fld and em.is_position_value(kids(fi)[0])
+                    # a record that was just cleared by the reversal (all three reset) is a stored record too
+                    if not ok and fld == "margin" and N(ix, fi) == ("int", 0):
+                        ok = True
+                    if not ok and fld == "last_updated_premium_fraction" and N(ix, fi) == ("pos", ("int", 0)):
+                        ok = True
+                    if not ok and fld == "size" and N(ix, fi) == ("pos", ("int", 0)):
+                        ok = True
+                    if not ok:
+                        bad = bad or "the settlement reads %s = %s" % (fld, sym.show(fi, 5)[:160])
+        if calls:
+            n += 1
+            ctx.inst(rule, "settles-stored-record:%s:%s" % (short_fn(st.fn), st.label), bad is None, st.fn.where(),
+                     "%d remain-margin computations; %s" % (calls, bad or "each on the stored record's own margin, checkpoint and size"))
+    if n == 0:
+        ctx.lost(rule, "remain-margin computations on the chain steps")
